@@ -73,6 +73,13 @@ def gen(ctx):
                 continue
             for form in ('str', 'path'):
                 D.append(dict(target=target, func=func, form=form, foreign=[]))
+    # directories that merely look like (the remains of) an array, and arrays that lost their description
+    # (a RaggedArray without its top-level description still opens -- Darr derives everything from the
+    # sub-arrays -- so it IS a ragged array for delete_raggedarray and is not in this list)
+    for target in ('lookalike', 'lookalike_values', 'lookalike_indices', 'array_nodescr'):
+        for func in ('delete_array', 'delete_raggedarray'):
+            for form in ('str', 'path'):
+                D.append(dict(target=target, func=func, form=form, foreign=[]))
     for func in ('asarray', 'create_array', 'asraggedarray', 'create_raggedarray', 'copy', 'rcopy', 'archive'):
         for occ in ('Array', 'bigArray', 'RaggedArray', 'plaindir', 'emptydir', 'file'):
             for ow in (False, True):
